@@ -136,7 +136,7 @@ func ToChannel[T any](size int) func(Observable[T]) Observable[<-chan Notificati
 			// Send the channel to the observer, because
 			// it's going to detach the upstream from the downstream.
 			// The next operator might be long-running.
-			go func() {
+			go recoverUnhandledError(func() {
 				// This is a workaround to avoid a race condition between the
 				// destination.NextWithContext() and the destination.CompleteWithContext()
 				// on empty source.
@@ -165,7 +165,7 @@ func ToChannel[T any](size int) func(Observable[T]) Observable[<-chan Notificati
 						),
 					),
 				)
-			}()
+			})
 
 			// Send the channel to the observer, after the goroutine is started.
 			// Because the observer might call be long-running.
@@ -175,8 +175,10 @@ func ToChannel[T any](size int) func(Observable[T]) Observable[<-chan Notificati
 			destination.NextWithContext(subscriberCtx, ch)
 
 			return func() {
+				// the channel is closed even if releasing the source panics
+				defer closeChan()
+
 				subscriptions.Unsubscribe()
-				closeChan()
 			}
 		})
 	}
